@@ -39,6 +39,29 @@ impl Fx {
         Self { dir, data, root, engine, rt }
     }
 
+    /// Opens an existing store directory (data + workspace) under a fresh authority.
+    pub fn open(dir: tempfile::TempDir, data: PathBuf, root: PathBuf, rt: Arc<tokio::runtime::Runtime>) -> Self {
+        let engine = {
+            let _g = rt.enter();
+            Arc::new(SessionEngine::new(data.clone(), root.clone(), None).expect("engine"))
+        };
+        Self { dir, data, root, engine, rt }
+    }
+
+    /// A copy of this store (data dir and workspace) in a new scratch dir, optionally without the
+    /// rebuildable caches, opened under a fresh authority.
+    pub fn copy(&self, with_caches: bool) -> Fx {
+        let dir = crate::common::scratch_dir("fxc");
+        let data = dir.path().join("data");
+        let root = dir.path().join("ws");
+        let _ = crate::common::copy_dir(&self.data, &data);
+        let _ = crate::common::copy_dir(&self.root, &root);
+        if !with_caches {
+            let _ = std::fs::remove_dir_all(data.join("continuity_streams"));
+        }
+        Fx::open(dir, data, root, self.rt.clone())
+    }
+
     /// Re-open everything on the same directories (authority restart).
     pub fn restart(&mut self) {
         let engine = {
